@@ -235,6 +235,42 @@ def generate(rng, seed, run, tier, xmode=False):
             'events': events}
 
 
+def simplify(plan):
+    """Argument-level simplifications tried after ddmin: shorter name lists, smaller initial tables."""
+    cfg = plan['config']
+    events = plan['events']
+    if cfg.get('simset'):
+        yield dict(plan, config=dict(cfg, simset=False))
+
+    def with_event(i, ev2):
+        return dict(plan, events=events[:i] + [ev2] + events[i + 1:])
+
+    for i, ev in enumerate(events):
+        kind = ev[0]
+        if kind == 'd_new':
+            _, s, objs, props, bools = ev
+            for k in range(len(objs)):
+                yield with_event(i, [kind, s, objs[:k] + objs[k + 1:], props, bools[:k] + bools[k + 1:]])
+            for k in range(len(props)):
+                yield with_event(i, [kind, s, objs, props[:k] + props[k + 1:], [r[:k] + r[k + 1:] for r in bools]])
+            for a, r in enumerate(bools):
+                for b, v in enumerate(r):
+                    if v:
+                        b2 = [list(x) for x in bools]
+                        b2[a][b] = 0
+                        yield with_event(i, [kind, s, objs, props, b2])
+        elif kind in ('d_add_o', 'd_add_p', 'd_set_o', 'd_set_p'):
+            for k in range(len(ev[3])):
+                yield with_event(i, [kind, ev[1], ev[2], ev[3][:k] + ev[3][k + 1:]])
+        elif kind == 'd_take':
+            for pos in (2, 3):
+                if ev[pos]:
+                    for k in range(len(ev[pos])):
+                        ev2 = list(ev)
+                        ev2[pos] = ev[pos][:k] + ev[pos][k + 1:]
+                        yield with_event(i, ev2)
+
+
 def _model_apply(models, ev):
     """Apply ``ev`` to the list of slot models; returns (ret, dst) or raises Rejected."""
     kind = ev[0]
